@@ -10,10 +10,14 @@ from harness.lib import hx, zl, cz, cbool, clist
 ID = 'C17'
 RULE = ('FASTA files generated from (header, sequence, line width) records; every interval [a,b) of every record '
         '(exhaustive for the small grid), library-built and supplied (faidx-style) index; non-trivial = some record '
-        'spans more than one line, or an interval endpoint lies on/next to a line break')
+        'spans more than one line, or an interval endpoint lies on/next to a line break; plus files of 3..8 records indexed by '
+        'create_index with the reader asked for chunks of 1..size+1 bytes (three or more chunks), and one file of more than '
+        '10 MB indexed with the library\'s own 5,000,000-byte chunks (checked from the shapes of its records)')
 EXHAUSTIVE = {'quick': False, 'thorough': False}
-TIE = 'translator+correspondence (Gen/C17.v regenerated from indexed_fasta.py, Bridge/C17.v; model_index, fetch_contig, fetch_interval evaluated in Coq on the file bytes)'
+TIE = 'translator+correspondence (Gen/C17.v regenerated from indexed_fasta.py, Bridge/C17.v; model_index, model_index_chunks over the C01 reader model, fetch_contig, fetch_interval evaluated in Coq on the file bytes; create_index offset accumulation regenerated as gen_ci_offsets / gen_ci_shift)'
 ASSUMPTIONS = ['A-IO: file.seek/read/readinto on a regular file return the requested bytes',
+               'small-file chunking of create_index is reached by wrapping the reader it opens so that read_chunks() asks for k bytes (harness-side, create_index itself untouched); the 5,000,000-byte default is exercised by one large file per run',
+               'CRLF files without a final line break are not generated (the width of an unterminated last line is not defined by the format)',
                'interval fetch is exercised on LF files only (the property does not quantify over CRLF for random access); CRLF files are used for the index and whole-contig fetch']
 PARTIAL = []
 ALPH = b'ACGTNacgtn'
@@ -38,7 +42,9 @@ def _mk(recs, crlf=False, final_newline=True, supplied=False, fetch='all', rng=N
         for n, (name, seq, w) in enumerate(recs):
             L = len(seq)
             allp = [(a, b) for a in range(L) for b in range(a + 1, L + 1)]
-            if fetch == 'all' or len(allp) <= 60:
+            if fetch == 'none':
+                sel = []
+            elif fetch == 'all' or len(allp) <= 60:
                 sel = allp
             else:
                 # endpoints on / before / after line breaks, plus random ones
@@ -73,6 +79,26 @@ def generate(tier, seed):
             w = rng.choice([1, 2, 3, 4, 5, 7, 10, 60, 80])
             recs.append((name, rseq(L), w))
         cases.append(_mk(recs, crlf=(i % 5 == 4), final_newline=(i % 3 != 0 or i % 5 == 4), supplied=(i % 2 == 1), fetch='some', rng=rng))
+    # create_index over a chunked read: 3..8 records and a reader chunk size (injected from outside, see observe) small
+    # enough for three or more chunks; offsets must accumulate over ALL earlier chunks
+    n_chunked = 40 if tier == 'quick' else 400
+    for i in range(n_chunked):
+        nrec = rng.randint(3, 8)
+        recs = []
+        for r in range(nrec):
+            name = 'k%d' % r if rng.random() < 0.7 else 'k%d desc %d' % (r, i)
+            L = rng.randint(1, 40)
+            w = rng.choice([1, 3, 4, 7, 10, 60])
+            recs.append((name, rseq(L), w))
+        c = _mk(recs, crlf=(i % 4 == 3), final_newline=(i % 3 != 0 or i % 4 == 3), supplied=False, fetch='none', rng=rng)
+        size = len(_file_bytes(c))
+        c['chunk_k'] = rng.choice([1, 2, 5, 16, 33, 64, max(1, size // 3), max(1, size // 2), size - 1, size, size + 1])
+        cases.append(c)
+    # the library's own chunking (5,000,000 bytes): a file of more than 10 MB is indexed in >= 3 chunks; only the
+    # records' shapes go to Coq (C17_index_from_shapes)
+    for i in range(1 if tier == 'quick' else 3):
+        cases.append(dict(big=dict(nrec=50 + 7 * i, seqlen=200000 + 1000 * i + rng.randint(0, 99), width=[100, 60, 77][i % 3], crlf=(i == 2)),
+                          recs=[], crlf=(i == 2), final_newline=True, supplied=True, intervals=[]))
     return cases
 
 
@@ -83,6 +109,8 @@ def observe(case):
     d = tempfile.mkdtemp(prefix='c17_')
     try:
         path = os.path.join(d, 'g.fa')
+        if case.get('big'):
+            return _observe_big(case['big'], path)
         data = _file_bytes(case)
         open(path, 'wb').write(data)
         if case['supplied']:
@@ -107,6 +135,8 @@ def observe(case):
         keys = list(fa.keys())
         lengths = fa.get_contig_lengths()
         out = dict(fai=fai, keys=keys, lengths=[int(lengths[k]) for k in keys])
+        if case.get('chunk_k'):
+            out['chunk'] = _create_index_chunked(path, case['chunk_k'])
         try:
             out['contigs'] = [bytes(fa[k].raw()).hex() for k in keys]
         except Exception as e:
@@ -146,6 +176,57 @@ def observe(case):
         shutil.rmtree(d, ignore_errors=True)
 
 
+def _create_index_chunked(path, k):
+    """create_index itself, with the reader it opens asked for chunks of k bytes instead of the 5,000,000 default
+    (the only way to reach its chunk bookkeeping with small files; the function under test is untouched)."""
+    import bionumpy.io.indexed_fasta as ifa
+    orig = ifa.bnp_open
+
+    class _Reader:
+        def __init__(self, r):
+            self._r = r
+
+        def read_chunks(self, *a, **kw):
+            return self._r.read_chunks(min_chunk_size=k)
+
+    ifa.bnp_open = lambda fn, **kw: _Reader(orig(fn, **kw))
+    try:
+        ix = ifa.create_index(path)
+        names = ix.chromosome.tolist()
+        return [[n.encode('latin1').hex(), int(a), int(b), int(c), int(e)] for n, a, b, c, e in
+                zip(names, ix.length.tolist(), ix.start.tolist(), ix.characters_per_line.tolist(), ix.line_length.tolist())]
+    except Exception as e:
+        return 'error:' + type(e).__name__
+    finally:
+        ifa.bnp_open = orig
+
+
+def _big_shapes(big):
+    return [('b%d' % i, big['seqlen'] + 13 * i, big['width']) for i in range(big['nrec'])]
+
+
+def _observe_big(big, path):
+    import bionumpy as bnp
+    eol = b'\r\n' if big['crlf'] else b'\n'
+    sizes = []
+    with open(path, 'wb') as f:
+        for name, L, w in _big_shapes(big):
+            seq = (b'ACGTTGCAAC' * (L // 10 + 1))[:L]
+            rec = b'>' + name.encode() + eol + b''.join(seq[i:i + w] + eol for i in range(0, L, w))
+            f.write(rec)
+            sizes.append(len(rec))
+    try:
+        fa = bnp.open_indexed(path)
+    except Exception as e:
+        return dict(error='open_indexed: %s' % type(e).__name__)
+    fai = []
+    for line in open(path + '.fai', 'rb').read().split(b'\n'):
+        if line:
+            p = line.split(b'\t')
+            fai.append([p[0].hex()] + [int(x) for x in p[1:5]])
+    return dict(big_fai=fai, big_sizes=sizes, file_size=os.path.getsize(path))
+
+
 def _obs_lists(case, o):
     """Canonical lists handed to Coq.  Anything that failed becomes a value no model/spec accepts."""
     bad = [['ff', -1, -1, -1, -1]]
@@ -172,8 +253,32 @@ def _obs_lists(case, o):
     return o['fai'], o['lengths'], contigs, fetch, genome
 
 
+def _idx_list(rows):
+    return clist(['(%s, %s, %s, %s, %s)' % (hx(bytes.fromhex(r[0])), cz(r[1]), cz(r[2]), cz(r[3]), cz(r[4])) for r in rows])
+
+
+EMPTY_TAIL = ('k_chunk := 0; k_chunk_raw := []; k_chunk_err := false; k_chunk_index := []; '
+              'k_big_eollen := 1; k_big_shapes := []; k_big_index := []')
+
+
 def to_coq(case, o):
+    if case.get('big'):
+        rows = o.get('big_fai') if 'error' not in o else [['ff', -1, -1, -1, -1]]
+        sizes = o.get('big_sizes') or [0] * case['big']['nrec']
+        shapes = clist(['{| s_name := %s; s_len := %s; s_width := %s; s_bytes := %s |}' % (hx(n.encode()), cz(L), cz(w), cz(b))
+                        for (n, L, w), b in zip(_big_shapes(case['big']), sizes)])
+        return ('{| k_recs := []; k_crlf := %s; k_file := []; k_supplied := true; k_index := []; k_lengths := []; '
+                'k_contigs := []; k_fetch := []; k_genome := []; k_chunk := 0; k_chunk_raw := []; k_chunk_err := false; '
+                'k_chunk_index := []; k_big_eollen := %s; k_big_shapes := %s; k_big_index := %s |}'
+                % (cbool(case['crlf']), cz(2 if case['crlf'] else 1), shapes, _idx_list(rows)))
     fai, lengths, contigs, fetch, genome = _obs_lists(case, o)
+    tail = EMPTY_TAIL
+    if case.get('chunk_k'):
+        ch = o.get('chunk', 'error:missing') if 'error' not in o else 'error:open'
+        err = not isinstance(ch, list)
+        tail = ('k_chunk := %s; k_chunk_raw := %s; k_chunk_err := %s; k_chunk_index := %s; '
+                'k_big_eollen := 1; k_big_shapes := []; k_big_index := []'
+                % (cz(case['chunk_k']), hx(_file_bytes(case)), cbool(err), _idx_list([] if err else ch)))
     recs = clist(['{| r_name := %s; r_seq := %s; r_width := %s |}' % (hx(n.encode()), hx(s.encode()), cz(w))
                   for n, s, w in case['recs']])
     # a supplied index names records by their first word; the library-built one by the whole header
@@ -182,26 +287,35 @@ def to_coq(case, o):
         file_b += b'\r\n' if case['crlf'] else b'\n'      # normalised text, as the reader delivers it
     idx = clist(['(%s, %s, %s, %s, %s)' % (hx(bytes.fromhex(r[0])), cz(r[1]), cz(r[2]), cz(r[3]), cz(r[4])) for r in fai])
     return ('{| k_recs := %s; k_crlf := %s; k_file := %s; k_supplied := %s; k_index := %s; k_lengths := %s; '
-            'k_contigs := %s; k_fetch := %s; k_genome := %s |}' % (
+            'k_contigs := %s; k_fetch := %s; k_genome := %s; ' % (
                 recs, cbool(case['crlf']), hx(file_b), cbool(case['supplied']), idx, zl(lengths),
                 clist([hx(bytes.fromhex(c)) for c in contigs], 'list Z'),
                 clist(['(%s, %s, %s, %s)' % (cz(n), cz(a), cz(b), hx(bytes.fromhex(g))) for n, a, b, g in fetch], '(Z*Z*Z*list Z)'),
-                clist(['(%s, %s)' % (cz(n), hx(bytes.fromhex(g))) for n, g in genome], '(Z*list Z)')))
+                clist(['(%s, %s)' % (cz(n), hx(bytes.fromhex(g))) for n, g in genome], '(Z*list Z)'))
+            + tail + ' |}')
 
 
 def nontrivial(case, o):
-    return any(len(s) > w for _, s, w in case['recs'])
+    return bool(case.get('big')) or any(len(s) > w for _, s, w in case['recs'])
 
 
 def describe(case, o):
     return dict(recs=[(n, s, w) for n, s, w in case['recs']], crlf=case['crlf'], final_newline=case['final_newline'],
                 supplied_index=case['supplied'], n_intervals=len(case['intervals']),
-                fai=[[bytes.fromhex(r[0]).decode()] + r[1:] for r in o.get('fai', [])], lengths=o.get('lengths'))
+                fai=[[bytes.fromhex(r[0]).decode()] + r[1:] for r in o.get('fai', [])], lengths=o.get('lengths'),
+                reader_chunk_size_for_create_index=case.get('chunk_k'), create_index_chunked=o.get('chunk'),
+                big_file=case.get('big'), big_file_index_head=(o.get('big_fai') or [])[:3], big_file_size=o.get('file_size'))
 
 
 def distribution(cases, obs):
-    d = dict(records={}, multi_line=0, crlf=0, supplied=0, no_final_newline=0, intervals=0)
+    d = dict(records={}, multi_line=0, crlf=0, supplied=0, no_final_newline=0, intervals=0, create_index_chunked=0,
+             create_index_chunk_sizes={}, big_files=0)
     for c in cases:
+        if c.get('chunk_k'):
+            d['create_index_chunked'] += 1
+            kk = '<=5' if c['chunk_k'] <= 5 else '<=64' if c['chunk_k'] <= 64 else '>64'
+            d['create_index_chunk_sizes'][kk] = d['create_index_chunk_sizes'].get(kk, 0) + 1
+        d['big_files'] += bool(c.get('big'))
         k = str(len(c['recs']))
         d['records'][k] = d['records'].get(k, 0) + 1
         d['multi_line'] += any(len(s) > w for _, s, w in c['recs'])
